@@ -514,15 +514,22 @@ func (c *Ctx) EqU64(path string, got, want uint64) {
 	c.Check(got == want, path, "got=%v,want=%v", got, want)
 }
 
+// SameF32 compares bit patterns; any NaN equals any NaN.
+func SameF32(a, b float32) bool {
+	return math.Float32bits(a) == math.Float32bits(b) || (a != a && b != b)
+}
+
+func SameF64(a, b float64) bool {
+	return math.Float64bits(a) == math.Float64bits(b) || (a != a && b != b)
+}
+
 // EqF32 compares bit patterns; any NaN equals any NaN.
 func (c *Ctx) EqF32(path string, got, want float32) {
-	ok := math.Float32bits(got) == math.Float32bits(want) || (got != got && want != want)
-	c.Check(ok, path, "got=%v,want=%v", got, want)
+	c.Check(SameF32(got, want), path, "got=%v,want=%v", got, want)
 }
 
 func (c *Ctx) EqF64(path string, got, want float64) {
-	ok := math.Float64bits(got) == math.Float64bits(want) || (got != got && want != want)
-	c.Check(ok, path, "got=%v,want=%v", got, want)
+	c.Check(SameF64(got, want), path, "got=%v,want=%v", got, want)
 }
 
 func (c *Ctx) EqBin64(path string, got, want bin.Bin64) {
